@@ -556,16 +556,17 @@ pub fn record(args: &Args) {
     //      as atoms and as paths; sizes that cannot fit; illegal first bytes
     if args.u64("ladder", 0) == 1 {
         let big = args.u64("ladder-big", 0) == 1;
-        let mut lens: Vec<usize> = vec![0, 1, 2, 62, 63, 64, 65, 0x2000];
-        if args.u64("ladder-full", 0) == 1 {
-            lens.extend([0x1fff, 0x2001]);
+        let full = args.u64("ladder-full", 0) == 1;
+        let mut lens: Vec<usize> = vec![0, 1, 2, 62, 63, 64, 65, 0xfff, 0x1000, 0x1fff, 0x2000, 0x10000];
+        if full {
+            lens.push(0x2001);
         }
         if big {
-            lens.extend([0xfffff, 0x100000]);
+            lens.push(0x100000);
         }
         for n in lens {
             let a = Sx::A((0..n).map(|i| (i * 7 + 3) as u8 | 0x80).collect());
-            if n < 0x10000 {
+            if n <= 65 || n == 0x2000 || (full && n < 0x10000) {
                 let t = Sx::list(vec![a.clone(), Sx::A(vec![5]), a.clone()]);
                 emit!(ev_ser(&t, "ladder"));
                 emit!(ev_dec(&compress(&t), "ladder"));
